@@ -114,6 +114,22 @@ def run(repo, chk):
             handled = handled or not plain
         chk.ob("R02.1", f"{form}:reported", handled or not accepted, f"ptera/transform.py ({cls})", why)
 
+    # a tuple target must never be stored as a whole (its names would go unreported at any nesting level the analysis reaches)
+    whole_tuple = []
+    n_stores = 0
+    for hname in ("visit_Assign", "visit_AnnAssign", "visit_For"):
+        for p in H.get(hname, []):
+            for x, dec in Q.with_decisions(p.template, p.decisions):
+                if isinstance(x, Node) and x.cls == "Assign" and not Q.is_interact(x.fields.get("value")):
+                    tg = x.fields.get("targets") or []
+                    if len(tg) == 1 and isinstance(tg[0], In) and tg[0].ctx == "store":
+                        n_stores += 1
+                        if "Tuple" in Q.possible_kinds(tg[0], dec):
+                            whole_tuple.append(f"{hname}: {tg[0].path} stored whole: {Q.show(x, 120)}")
+    chk.ob("R02.1", "tuple-targets:always-decomposed", not whole_tuple and n_stores >= 3, "ptera/transform.py (visit_Assign._decompose)",
+           f"in none of the {n_stores} pass-through stores can the target still be a tuple: tuple targets (nested, or one of several chained targets) are decomposed so that each name gets its interaction"
+           + (f" -- {sorted(set(whole_tuple))[:2]}" if whole_tuple else ""))
+
     # ---------------- R02.2
     def first_user_index(stmts):
         for i, (s, dec, star) in enumerate(stmts):
